@@ -64,11 +64,10 @@ fn worker(args: &[String]) {
     let out = arg_val(args, "--out").expect("--out");
     let ctx = Ctx { prop: prop.clone(), thorough, seed, shard, shards };
     // the worker may drop privileges later: make its output files writable for anybody up front
-    for f in [out.clone(), format!("{}.stall", out)] {
-        use std::os::unix::fs::PermissionsExt;
-        let _ = std::fs::File::create(&f);
-        let _ = std::fs::set_permissions(&f, std::fs::Permissions::from_mode(0o666));
-    }
+    // (both files are opened now and written through the open descriptors, so that a directory the new uid may
+    // not traverse - e.g. a snapshot below /root - does not matter)
+    let mut out_file = std::fs::File::create(&out).expect("create report file");
+    *STALL_FILE.lock().unwrap() = std::fs::File::create(format!("{}.stall", out)).ok();
     unsafe {
         libc::umask(0o022);
     }
@@ -85,7 +84,8 @@ fn worker(args: &[String]) {
             v.push(("harness_error".to_string(), J::s(format!("worker panic: {} at {}", msg, last_panic_loc()))));
         }
     }
-    std::fs::write(&out, j.dump()).expect("write report");
+    out_file.write_all(j.dump().as_bytes()).expect("write report");
+    let _ = out_file.flush();
 }
 
 struct Known {
